@@ -25,7 +25,7 @@ import gen_mc
 
 def alphabet(L, S):
     return [("chunk", 0), ("chunk", 1), ("chunk", max(1, L // 2)), ("chunk", L - 1), ("chunk", L), ("chunk", L + S),
-            ("finalize",), ("full", L // 2), ("full", 2 * L), ("fbf", 2 * L, 3)]
+            ("finalize",), ("full", L // 2), ("full", 2 * L), ("fbf", 2 * L, 3), ("chunk32", L + S)]
 
 
 def probe_ops(L, S):
@@ -33,6 +33,7 @@ def probe_ops(L, S):
 
 
 def stft_histories(run, tier, rng):
+    nprng = np.random.RandomState(rng.randint(0, 2 ** 31 - 1))
     cfgs = c01.stft_configs(tier)
     if tier == "quick":
         cfgs = [c for i, c in enumerate(cfgs) if i % 5 == 0]
@@ -53,15 +54,26 @@ def stft_histories(run, tier, rng):
             # leave the instance idle, whatever the history was
             if rec.inprog:
                 rec.run(("finalize",))
-            # probe utterance on the used instance ...
+            # first a probe with values that are NOT exactly representable in narrower types, fed in pieces that
+            # are held in the buffer before a frame is complete: state such as the buffer's dtype shows only then
+            fresh = stubs.make_stft(L, S, st)
+            vals_used, vals_fresh = [], []
+            xr = nprng.randn(3 * L + S + 1)
+            p0 = 0
+            for cpos in (1, max(1, L // 2 - 1), L, 3 * L + S + 1):
+                vals_used.append(c.compute_chunk(xr[p0:cpos]))
+                vals_fresh.append(fresh.compute_chunk(xr[p0:cpos]))
+                p0 = cpos
+            vals_used.append(c.finalize())
+            vals_fresh.append(fresh.finalize())
+            rec.tap.take()
+            # then a probe utterance of tokens on the used instance ...
             u = rec.utt + 1
-            vals_used = []
             for op in probe_ops(L, S):
                 ev, v = rec.run(op)
                 vals_used.append(v)
-            # ... and on a fresh instance with the same signal
-            fresh = stubs.make_stft(L, S, st)
-            vals_fresh, p = [], 0
+            # ... and on the fresh instance with the same signal
+            p = 0
             for op in probe_ops(L, S):
                 if op[0] == "chunk":
                     vals_fresh.append(fresh.compute_chunk(T.signal(u, p, op[1])))
